@@ -13,7 +13,7 @@ NPROC = int(os.environ.get('QV_NPROC', '16'))
 
 
 def run_sharded(check_name, cases, shard_timeout=600, nproc=None, extra_env=None,
-                pyflags=()):
+                pyflags=(), _retry=True):
     """Run mod.run_case(case) for every case in worker subprocesses.
 
     Returns (results, problems). results[i] is the dict returned for cases[i] or None.
@@ -37,6 +37,7 @@ def run_sharded(check_name, cases, shard_timeout=600, nproc=None, extra_env=None
     procs = []
     results = [None] * n
     problems = []
+    redo = []
     try:
         for si, sh in enumerate(shards):
             inp = os.path.join(tmp, f'in{si}.json')
@@ -75,10 +76,25 @@ def run_sharded(check_name, cases, shard_timeout=600, nproc=None, extra_env=None
             if rc != 0 or got != len(sh):
                 with open(errf.name) as f:
                     tail = f.read()[-1500:]
-                problems.append(f'shard {si}: rc={rc} got {got}/{len(sh)} results; stderr tail: {tail}')
+                missing = [(i, c) for i, c in sh if results[i] is None]
+                if _retry and rc != 'timeout' and len(missing) > 1:
+                    # the worker died (not: ran out of time): the case it died on is the problem, the rest of its
+                    # shard is run again in fresh workers
+                    dead_i, dead_c = missing[0]
+                    problems.append(f'shard {si}: worker died (rc={rc}) on case {dead_i}: {json.dumps(dead_c)[:300]}; '
+                                    f'stderr tail: {tail}')
+                    redo.extend(missing[1:])
+                else:
+                    problems.append(f'shard {si}: rc={rc} got {got}/{len(sh)} results; stderr tail: {tail}')
     finally:
         for p, *_ in procs:
             if p.poll() is None:
                 p.kill()
         shutil.rmtree(tmp, ignore_errors=True)
+    if redo:
+        r2, p2 = run_sharded(check_name, [c for _, c in redo], shard_timeout=shard_timeout, nproc=nproc, extra_env=extra_env,
+                             pyflags=pyflags, _retry=False)
+        for (i, _), r in zip(redo, r2):
+            results[i] = r
+        problems.extend('retry: ' + x for x in p2)
     return results, problems
